@@ -428,4 +428,435 @@ example : ¬ realAst.Accepts "3".toList := by decide
 example : ¬ realAst.Accepts ".".toList := by decide
 example : ¬ realAst.Accepts "1.5.2".toList := by decide
 
+/-! ## uuid  (`Regex(r"[0-9a-fA-F]{8}(-[0-9a-fA-F]{4}){3}-[0-9a-fA-F]{12}")`) -/
+
+abbrev hxs : CSet := ⟨false, [.r '0' '9', .r 'a' 'f', .r 'A' 'F'], false⟩
+abbrev dashs : CSet := ⟨false, [.c '-'], false⟩
+
+theorem has_hxs (c : Char) : hxs.has c = true ↔ IsHexDigit c := by
+  simp [CSet.has, Item.has, IsHexDigit]
+
+theorem takeN_append (C : Char → Bool) (n : Nat) (w e : List Char) (hl : w.length = n)
+    (hw : ∀ c ∈ w, C c = true) : takeN C n (w ++ e) = some e :=
+  (takeN_some C n _ e).2 ⟨w, rfl, hl, hw⟩
+
+/-- one `-xxxx` group -/
+def dashHex (n : Nat) (s : List Char) : Option (List Char) := (expect dashs.has s).bind (takeN hxs.has n)
+
+theorem dashHex_progress (n : Nat) (s e : List Char) (h : dashHex n s = some e) : e.length < s.length := by
+  unfold dashHex at h
+  rw [Option.bind_eq_some_iff] at h
+  obtain ⟨t, h1, h2⟩ := h
+  obtain ⟨c, rfl, _⟩ := (expect_some _ _ _).1 h1
+  have := takeN_length _ _ _ _ h2
+  simp; omega
+
+theorem dashHex_some (n : Nat) (s e : List Char) :
+    dashHex n s = some e ↔ ∃ w, s = '-' :: (w ++ e) ∧ w.length = n ∧ ∀ c ∈ w, IsHexDigit c := by
+  unfold dashHex
+  rw [Option.bind_eq_some_iff]
+  constructor
+  · rintro ⟨t, h1, h2⟩
+    obtain ⟨c, rfl, hc⟩ := (expect_some _ _ _).1 h1
+    obtain ⟨w, rfl, hl, hw⟩ := (takeN_some _ _ _ _).1 h2
+    have : c = '-' := (has_lit '-' c).1 hc
+    subst this
+    exact ⟨w, rfl, hl, fun x hx => (has_hxs x).1 (hw x hx)⟩
+  · rintro ⟨w, rfl, hl, hw⟩
+    refine ⟨w ++ e, ?_, takeN_append _ _ _ _ hl (fun x hx => (has_hxs x).2 (hw x hx))⟩
+    simp [expect, CSet.has, Item.has]
+
+def uuidFn (s : List Char) : Option (List Char) :=
+  (takeN hxs.has 8 s).bind (fun e => (iter (dashHex 4) 3 e).bind (fun e => dashHex 12 e))
+
+theorem uuid_det : Det uuidAst uuidFn := by
+  unfold uuidAst seqs hx cls lit
+  exact det_seq (det_exact_set hxs 8)
+    (det_seq (det_exact (det_grp 1 (det_seq (det_set dashs) (det_exact_set hxs 4))) (dashHex_progress 4) true 3)
+      (det_seq (det_set dashs) (det_exact_set hxs 12)))
+
+/-- documented syntax: `xxxxxxxx-xxxx-xxxx-xxxx-xxxxxxxxxxxx`, hexadecimal digits in groups of 8-4-4-4-12 -/
+def IsUuid (s : List Char) : Prop :=
+  ∃ a b c d e, s = a ++ '-' :: (b ++ '-' :: (c ++ '-' :: (d ++ '-' :: e))) ∧
+    a.length = 8 ∧ b.length = 4 ∧ c.length = 4 ∧ d.length = 4 ∧ e.length = 12 ∧
+    (∀ x ∈ a, IsHexDigit x) ∧ (∀ x ∈ b, IsHexDigit x) ∧ (∀ x ∈ c, IsHexDigit x) ∧ (∀ x ∈ d, IsHexDigit x) ∧
+    (∀ x ∈ e, IsHexDigit x)
+
+theorem uuid_language (s : List Char) : uuidAst.Accepts s ↔ IsUuid s := by
+  rw [det_accepts uuid_det]
+  unfold uuidFn
+  simp only [iter, Option.bind_eq_some_iff, dashHex_some, takeN_some, Option.some.injEq]
+  constructor
+  · rintro ⟨e1, ⟨a, rfl, ha, haw⟩, e4, ⟨e2, ⟨b, rfl, hb, hbw⟩, e3, ⟨c, rfl, hc, hcw⟩, e4', ⟨d, rfl, hd, hdw⟩, rfl⟩,
+      e, he, hel, hew⟩
+    simp only [List.append_nil] at he
+    subst he
+    exact ⟨a, b, c, d, e, rfl, ha, hb, hc, hd, hel, fun x hx => (has_hxs x).1 (haw x hx), hbw, hcw, hdw, hew⟩
+  · rintro ⟨a, b, c, d, e, rfl, ha, hb, hc, hd, he, haw, hbw, hcw, hdw, hew⟩
+    refine ⟨_, ⟨a, rfl, ha, fun x hx => (has_hxs x).2 (haw x hx)⟩, _, ⟨_, ⟨b, rfl, hb, hbw⟩, _, ⟨c, rfl, hc, hcw⟩, _,
+      ⟨d, rfl, hd, hdw⟩, rfl⟩, e, by simp, he, hew⟩
+
+example : uuidAst.Accepts "12345678-1234-5678-1234-567812345678".toList := by decide
+example : uuidAst.Accepts "ABCDEF12-abcd-5678-1234-567812345678".toList := by decide
+example : ¬ uuidAst.Accepts "12345678-1234-5678-1234-56781234567".toList := by decide
+example : ¬ uuidAst.Accepts "1234567g-1234-5678-1234-567812345678".toList := by decide
+
+/-! ## iso8601_date  (`(?P<year>\d{4})(?:-(?P<month>\d\d)(?:-(?P<day>\d\d))?)?`) -/
+
+theorem ends_seq_det {a : Re} {fa} (ha : Det a fa) (b : Re) (s : List Char) :
+    (seq a b).ends s = match fa s with
+      | none => []
+      | some e => b.ends e := by
+  simp only [Re.ends, ha s]
+  cases fa s <;> simp
+
+theorem ends_seq_assoc (a b c : Re) (s : List Char) :
+    (seq a (seq b c)).ends s = (seq (seq a b) c).ends s := by
+  simp only [Re.ends, List.flatMap_assoc]
+
+theorem det_dd : Det dd (takeN dset.has 2) := by
+  intro s
+  unfold dd digit
+  cases s with
+  | nil => simp [Re.ends, takeN]
+  | cons c t =>
+    cases t with
+    | nil => by_cases hc : dset.has c = true <;> simp [Re.ends, takeN, hc]
+    | cons c2 t2 =>
+      by_cases hc : dset.has c = true <;> by_cases hc2 : dset.has c2 = true <;> simp [Re.ends, takeN, hc, hc2]
+
+/-- `-` followed by exactly `n` digits -/
+def dashDig (n : Nat) (s : List Char) : Option (List Char) := (expect dashs.has s).bind (takeN dset.has n)
+
+theorem dashDig_some (n : Nat) (s e : List Char) :
+    dashDig n s = some e ↔ ∃ w, s = '-' :: (w ++ e) ∧ w.length = n ∧ ∀ c ∈ w, IsDigit c := by
+  unfold dashDig
+  rw [Option.bind_eq_some_iff]
+  constructor
+  · rintro ⟨t, h1, h2⟩
+    obtain ⟨c, rfl, hc⟩ := (expect_some _ _ _).1 h1
+    obtain ⟨w, rfl, hl, hw⟩ := (takeN_some _ _ _ _).1 h2
+    have : c = '-' := (has_lit '-' c).1 hc
+    subst this
+    exact ⟨w, rfl, hl, fun x hx => (has_digit x).1 (hw x hx)⟩
+  · rintro ⟨w, rfl, hl, hw⟩
+    refine ⟨w ++ e, ?_, takeN_append _ _ _ _ hl (fun x hx => (has_digit x).2 (hw x hx))⟩
+    simp [expect, CSet.has, Item.has]
+
+theorem dashDig_none_nil (n : Nat) : dashDig n [] = none := by simp [dashDig, expect]
+
+/-- the preferred match of the date pattern: the year, then as many of `-mm`, `-dd` as are there -/
+def isoDateFn (s : List Char) : Option (List Char) :=
+  (takeN dset.has 4 s).map (fun e =>
+    match dashDig 2 e with
+    | none => e
+    | some e2 => match dashDig 2 e2 with
+      | none => e2
+      | some e3 => e3)
+
+theorem isoDate_head (s : List Char) : (isoDateAst.ends s).head? = isoDateFn s := by
+  unfold isoDateAst isoDateFn
+  simp only [seqs]
+  have hY : Det (grp 1 (exactly 4 digit)) (takeN dset.has 4) := det_grp 1 (det_exact_set dset 4)
+  have hD3 : Det (seq (lit '-') (grp 3 dd)) (dashDig 2) := det_seq (det_set dashs) (det_grp 3 det_dd)
+  have hD2 : Det (seq (lit '-') (grp 2 dd)) (dashDig 2) := det_seq (det_set dashs) (det_grp 2 det_dd)
+  rw [ends_seq_det hY]
+  cases hy : takeN dset.has 4 s with
+  | none => simp
+  | some e =>
+    simp only [Option.map_some]
+    rw [ends_opt_progress (seq (lit '-') (seq (grp 2 dd) (opt (seq (lit '-') (grp 3 dd))))) e
+      (fun x hx => seq_set_progress dashs _ e x hx)]
+    -- the inner `- mm (-dd)?`
+    have hx2 : (seq (lit '-') (seq (grp 2 dd) (opt (seq (lit '-') (grp 3 dd))))).ends e =
+        match dashDig 2 e with
+        | none => []
+        | some e2 => (seq (lit '-') (grp 3 dd)).ends e2 ++ [e2] := by
+      rw [ends_seq_assoc, ends_seq_det hD2]
+      cases hd : dashDig 2 e with
+      | none => rfl
+      | some e2 =>
+        exact ends_opt_progress (seq (lit '-') (grp 3 dd)) e2 (fun x hx => seq_set_progress dashs _ e2 x hx)
+    rw [hx2]
+    cases hd : dashDig 2 e with
+    | none => simp
+    | some e2 =>
+      simp only
+      rw [hD3 e2]
+      cases hd3 : dashDig 2 e2 <;> simp
+
+/-- documented syntax: `yyyy`, `yyyy-mm` or `yyyy-mm-dd` (decimal digits) -/
+def IsIsoDate (s : List Char) : Prop :=
+  ∃ y, y.length = 4 ∧ (∀ c ∈ y, IsDigit c) ∧
+    (s = y ∨ ∃ m, m.length = 2 ∧ (∀ c ∈ m, IsDigit c) ∧
+      (s = y ++ '-' :: m ∨ ∃ d, d.length = 2 ∧ (∀ c ∈ d, IsDigit c) ∧ s = y ++ '-' :: (m ++ '-' :: d)))
+
+theorem iso8601_date_language (s : List Char) : isoDateAst.Accepts s ↔ IsIsoDate s := by
+  unfold Re.Accepts
+  rw [isoDate_head]
+  unfold isoDateFn
+  constructor
+  · intro h
+    rw [Option.map_eq_some_iff] at h
+    obtain ⟨e, hy, he⟩ := h
+    obtain ⟨y, rfl, hyl, hyw⟩ := (takeN_some _ _ _ _).1 hy
+    refine ⟨y, hyl, fun c hc => (has_digit c).1 (hyw c hc), ?_⟩
+    cases hd : dashDig 2 e with
+    | none => rw [hd] at he; simp only at he; subst he; left; simp
+    | some e2 =>
+      rw [hd] at he; simp only at he
+      obtain ⟨m, rfl, hml, hmw⟩ := (dashDig_some _ _ _).1 hd
+      right
+      refine ⟨m, hml, hmw, ?_⟩
+      cases hd3 : dashDig 2 e2 with
+      | none => rw [hd3] at he; simp only at he; subst he; left; simp
+      | some e3 =>
+        rw [hd3] at he; simp only at he; subst he
+        obtain ⟨d, rfl, hdl, hdw⟩ := (dashDig_some _ _ _).1 hd3
+        right; exact ⟨d, hdl, hdw, by simp⟩
+  · rintro ⟨y, hyl, hyw, h⟩
+    have hyw' : ∀ c ∈ y, dset.has c = true := fun c hc => (has_digit c).2 (hyw c hc)
+    rcases h with h | ⟨m, hml, hmw, h⟩
+    · have : takeN dset.has 4 y = some [] := by simpa using takeN_append dset.has 4 y [] hyl hyw'
+      rw [h, this]; simp [dashDig_none_nil]
+    · rcases h with rfl | ⟨d, hdl, hdw, rfl⟩
+      · rw [takeN_append dset.has 4 y _ hyl hyw']
+        have h1 : dashDig 2 ('-' :: m) = some [] := (dashDig_some _ _ _).2 ⟨m, by simp, hml, hmw⟩
+        simp [h1, dashDig_none_nil]
+      · rw [takeN_append dset.has 4 y _ hyl hyw']
+        have h1 : dashDig 2 ('-' :: (m ++ '-' :: d)) = some ('-' :: d) := (dashDig_some _ _ _).2 ⟨m, rfl, hml, hmw⟩
+        have h2 : dashDig 2 ('-' :: d) = some [] := (dashDig_some _ _ _).2 ⟨d, by simp, hdl, hdw⟩
+        simp [h1, h2]
+
+example : isoDateAst.Accepts "1999".toList := by decide
+example : isoDateAst.Accepts "1999-12".toList := by decide
+example : isoDateAst.Accepts "1999-12-31".toList := by decide
+example : ¬ isoDateAst.Accepts "1999-1".toList := by decide
+example : ¬ isoDateAst.Accepts "1999-12-3".toList := by decide
+example : ¬ isoDateAst.Accepts "1999-12-31-".toList := by decide
+
+/-! ## fnumber  (`Regex(r"[+-]?\d+\.?\d*(?:[eE][+-]?\d+)?")`) -/
+
+abbrev eEs : CSet := ⟨false, [.c 'e', .c 'E'], false⟩
+
+/-- exponent part: `e` or `E`, then an optionally signed run of digits -/
+def IsExpo (w : List Char) : Prop := ∃ c t, w = c :: t ∧ (c = 'e' ∨ c = 'E') ∧ IsSignedInteger t
+
+theorem has_eE (c : Char) : eEs.has c = true ↔ (c = 'e' ∨ c = 'E') := by
+  simp [CSet.has, Item.has]
+
+theorem expo_accepts (w : List Char) : expoPart.Accepts w ↔ IsExpo w := by
+  unfold expoPart cls Re.Accepts
+  rw [ends_seq_set]
+  cases w with
+  | nil => simp [IsExpo]
+  | cons c t =>
+    simp only
+    by_cases hc : eEs.has c = true
+    · rw [if_pos hc]
+      have := signed_integer_language t
+      unfold signedIntegerAst Re.Accepts at this
+      unfold signOpt
+      rw [this]
+      constructor
+      · intro h; exact ⟨c, t, rfl, (has_eE c).1 hc, h⟩
+      · rintro ⟨c', t', h, _, ht⟩; simp at h; rw [h.2]; exact ht
+    · rw [if_neg hc]
+      constructor
+      · intro h; simp at h
+      · rintro ⟨c', t', h, hc', _⟩; simp at h; exact absurd ((has_eE c).2 (h.1 ▸ hc')) hc
+
+theorem expo_progress : ∀ s e, e ∈ expoPart.ends s → e.length < s.length := by
+  intro s e h; unfold expoPart cls at h; exact seq_set_progress _ _ s e h
+
+theorem opt_expo_head (w : List Char) :
+    ((opt expoPart).ends w).head? = some [] ↔ (expoPart.Accepts w ∨ w = []) := by
+  rw [ends_opt_progress expoPart w (expo_progress w), List.head?_append]
+  unfold Re.Accepts
+  cases h : (expoPart.ends w).head? with
+  | none =>
+    simp
+  | some e =>
+    simp only [Option.some_or, Option.some.injEq]
+    constructor
+    · intro h'; left; exact h'
+    · rintro (h' | h')
+      · exact h'
+      · subst h'
+        have : expoPart.ends [] = [] := by unfold expoPart cls; rw [ends_seq_set]
+        rw [this] at h; simp at h
+
+def stripDot : List Char → List Char
+  | '.' :: z => z
+  | y => y
+
+theorem opt_dot_head (y : List Char) : ((opt (lit '.')).ends y).head? = some (stripDot y) := by
+  unfold lit
+  rw [ends_opt_set]
+  cases y with
+  | nil => simp [stripDot]
+  | cons c t =>
+    simp only
+    by_cases hc : c = '.'
+    · subst hc; simp [stripDot, CSet.has, Item.has]
+    · have : ¬ (CSet.mk false [.c '.'] false).has c = true := by rw [has_lit]; exact hc
+      rw [if_neg this]
+      unfold stripDot
+      split
+      · rename_i z heq; simp at heq; exact absurd heq.1 hc
+      · rfl
+
+def fnumberBody : Re := seq (plus digit) (seq (opt (lit '.')) (seq (star digit) (opt expoPart)))
+
+theorem fnumber_body_head (x : List Char) :
+    (fnumberBody.ends x).head? =
+      if 1 ≤ (x.takeWhile dset.has).length then
+        ((opt expoPart).ends ((stripDot (x.dropWhile dset.has)).dropWhile dset.has)).head?
+      else none := by
+  have t3 : Total (opt expoPart) := total_opt_progress _ expo_progress
+  have t2 : Total (seq (star digit) (opt expoPart)) := total_seq (total_star_set _) t3
+  have t1 : Total (seq (opt (lit '.')) (seq (star digit) (opt expoPart))) := total_seq (total_opt_set _) t2
+  unfold fnumberBody
+  rw [head_seq_total _ _ t1]
+  have hp : ((plus digit).ends x).head? =
+      if 1 ≤ (x.takeWhile dset.has).length then some (x.dropWhile dset.has) else none := by
+    unfold plus digit; rw [ends_rep_set, repSet_none_head]
+  rw [hp]
+  split
+  · simp only [Option.bind_some]
+    rw [head_seq_total _ _ t2, opt_dot_head]
+    simp only [Option.bind_some]
+    rw [head_seq_total _ _ t3]
+    have hs : ∀ y, ((star digit).ends y).head? = some (y.dropWhile dset.has) := by
+      intro y; unfold star digit; rw [ends_rep_set, repSet_none_head]; simp
+    rw [hs]
+    simp only [Option.bind_some]
+  · rfl
+
+theorem fnumber_noSign : ∀ c t, IsSign c → fnumberBody.ends (c :: t) = [] := by
+  intro c t h
+  unfold fnumberBody plus digit
+  simp only [Re.ends]
+  have : dset.has c = false := by
+    cases hh : dset.has c with
+    | false => rfl
+    | true => exact absurd ((has_digit c).1 hh) (sign_not_digit h)
+  have h0 : repEnds (fun x => Re.ends (.set dset) x) true ((c :: t).length + 1) 1 none (c :: t) = [] := by
+    rw [repEnds_set dset.has _ (by simp [Re.ends]) (by intro c t; simp [Re.ends]) _ _ _ _ (by omega)]
+    simp [repSet, this]
+  simp only [Re.ends] at h0
+  rw [h0]; rfl
+
+/-- documented syntax of the unsigned part: digits, optionally `.` and more digits, optionally an exponent -/
+def IsUFnumber (x : List Char) : Prop :=
+  ∃ a fr ex, x = a ++ (fr ++ ex) ∧ a ≠ [] ∧ (∀ c ∈ a, IsDigit c) ∧
+    (fr = [] ∨ ∃ b, fr = '.' :: b ∧ ∀ c ∈ b, IsDigit c) ∧ (ex = [] ∨ IsExpo ex)
+
+/-- documented syntax: optional sign, digits, optional fraction (`.` digits*), optional exponent -/
+def IsFnumber (s : List Char) : Prop :=
+  ∃ sg x, s = sg ++ x ∧ (sg = [] ∨ ∃ c, IsSign c ∧ sg = [c]) ∧ IsUFnumber x
+
+theorem expo_stop {ex : List Char} (h : ex = [] ∨ IsExpo ex) :
+    ex = [] ∨ ∃ c t, ex = c :: t ∧ dset.has c = false := by
+  rcases h with h | ⟨c, t, rfl, hc, _⟩
+  · left; exact h
+  · right; refine ⟨c, t, rfl, ?_⟩
+    rcases hc with rfl | rfl <;> decide
+
+theorem dset_all {b : List Char} (h : ∀ c ∈ b, IsDigit c) : ∀ c ∈ b, dset.has c = true :=
+  fun c hc => (has_digit c).2 (h c hc)
+
+theorem fnumber_body_language (x : List Char) : fnumberBody.Accepts x ↔ IsUFnumber x := by
+  unfold Re.Accepts
+  rw [fnumber_body_head]
+  constructor
+  · intro h
+    split at h
+    · rename_i hrun
+      rw [opt_expo_head] at h
+      have hx := List.takeWhile_append_dropWhile (p := dset.has) (l := x)
+      have ha : ∀ c ∈ x.takeWhile dset.has, IsDigit c :=
+        fun c hc => (has_digit c).1 (mem_takeWhile_sat _ _ c hc)
+      have hane : x.takeWhile dset.has ≠ [] := by
+        intro h0; rw [h0] at hrun; simp at hrun
+      have hex : ∀ w, (expoPart.Accepts w ∨ w = []) → (w = [] ∨ IsExpo w) := by
+        intro w hw; rcases hw with hw | hw
+        · right; exact (expo_accepts w).1 hw
+        · left; exact hw
+      -- is there a dot after the integer part?
+      cases hy : x.dropWhile dset.has with
+      | nil =>
+        rw [hy] at h hx
+        simp only [stripDot, List.dropWhile_nil] at h
+        exact ⟨x.takeWhile dset.has, [], [], by simpa using hx.symm, hane, ha, Or.inl rfl, Or.inl rfl⟩
+      | cons c z =>
+        rw [hy] at h hx
+        by_cases hc : c = '.'
+        · subst hc
+          simp only [stripDot] at h
+          have hz := List.takeWhile_append_dropWhile (p := dset.has) (l := z)
+          refine ⟨x.takeWhile dset.has, '.' :: z.takeWhile dset.has, z.dropWhile dset.has, ?_, hane, ha,
+            Or.inr ⟨_, rfl, fun c hc => (has_digit c).1 (mem_takeWhile_sat _ _ c hc)⟩, hex _ h⟩
+          rw [List.cons_append, hz]; exact hx.symm
+        · have hsd : stripDot (c :: z) = c :: z := by
+            unfold stripDot; split
+            · rename_i z' heq; simp at heq; exact absurd heq.1 hc
+            · rfl
+          rw [hsd] at h
+          -- `c :: z` is what is left after the digits, so it does not start with a digit
+          have hnd : (c :: z).dropWhile dset.has = c :: z := by
+            rcases dropWhile_head_not dset.has x with h0 | ⟨c', t', h1, h2⟩
+            · rw [hy] at h0; simp at h0
+            · rw [hy] at h1; simp at h1; obtain ⟨rfl, rfl⟩ := h1
+              simp [List.dropWhile_cons, h2]
+          rw [hnd] at h
+          exact ⟨x.takeWhile dset.has, [], c :: z, by simpa using hx.symm, hane, ha, Or.inl rfl, hex _ h⟩
+    · simp at h
+  · rintro ⟨a, fr, ex, rfl, hane, ha, hfr, hex⟩
+    have hstop := expo_stop hex
+    have hexh : ((opt expoPart).ends ex).head? = some [] := by
+      rw [opt_expo_head]
+      rcases hex with h | h
+      · right; exact h
+      · left; exact (expo_accepts ex).2 h
+    rcases hfr with rfl | ⟨b, rfl, hb⟩
+    · obtain ⟨hd, ht⟩ := dropWhile_append_stop dset.has a ([] ++ ex) (dset_all ha) (by simpa using hstop)
+      rw [ht, hd, if_pos (by cases a <;> simp_all)]
+      simp only [List.nil_append]
+      have hsd : stripDot ex = ex := by
+        rcases hex with rfl | ⟨c, t, rfl, hc, _⟩
+        · rfl
+        · unfold stripDot; split
+          · rename_i z heq; simp at heq
+            rcases hc with rfl | rfl <;> exact absurd heq.1 (by decide)
+          · rfl
+      rw [hsd]
+      have : ex.dropWhile dset.has = ex := by
+        rcases hstop with rfl | ⟨c, t, rfl, hc⟩
+        · rfl
+        · simp [List.dropWhile_cons, hc]
+      rw [this]; exact hexh
+    · have hdot : dset.has '.' = false := by decide
+      obtain ⟨hd, ht⟩ := dropWhile_append_stop dset.has a (('.' :: b) ++ ex) (dset_all ha)
+        (Or.inr ⟨'.', b ++ ex, rfl, hdot⟩)
+      rw [ht, hd, if_pos (by cases a <;> simp_all)]
+      simp only [List.cons_append, stripDot]
+      rw [(dropWhile_append_stop dset.has b ex (dset_all hb) hstop).1]
+      exact hexh
+
+theorem fnumber_language (s : List Char) : fnumberAst.Accepts s ↔ IsFnumber s := by
+  have : fnumberAst = seq signOpt fnumberBody := rfl
+  rw [this]
+  unfold IsFnumber
+  rw [accepts_signOpt _ fnumber_noSign]
+  simp only [fnumber_body_language]
+
+example : fnumberAst.Accepts "-12.5e+3".toList := by decide
+example : fnumberAst.Accepts "7".toList := by decide
+example : fnumberAst.Accepts "7.".toList := by decide
+example : fnumberAst.Accepts "1E5".toList := by decide
+example : ¬ fnumberAst.Accepts ".5".toList := by decide
+example : ¬ fnumberAst.Accepts "1.5e".toList := by decide
+example : ¬ fnumberAst.Accepts "1..5".toList := by decide
+
 end PP.C18
